@@ -108,6 +108,12 @@ def empty_hunks(ctx):
         t = sd.term(bb)
         if t[0] != "switch":
             continue
+        if t[4] != "bool" and len(t[2]) == 1 and int(t[2][0][0]) == 0:
+            # `switchInt(n) -> [0: zero, otherwise: nonzero]`: what optimised MIR makes of `if n == 0`
+            o0 = operand_origin(sd, t[1])
+            if not (o0 and o0[0] == "discr"):
+                tests.append((bb, t[2][0][1], t[3]))
+                continue
         o = operand_origin(sd, t[1])
         if o and o[0] == "bin" and o[1] in ("Eq", "Ne") and any(x[0] == "const" and x[1] == 0 for x in (o[2], o[3])):
             other = o[2] if o[3][0] == "const" else o[3]
